@@ -662,12 +662,12 @@ func boundaryC16(emit func(*c16Case)) {
 
 func runC16() error {
 	if *replay != "" {
-		return fmt.Errorf("replay of C16 cases: use the history/type/value tokens of the replay file with -corpus")
+		return replayC16()
 	}
 	full := *tier == "thorough"
-	perWorker := 300
+	perWorker := 2500
 	if full {
-		perWorker = 4000
+		perWorker = 30000
 	}
 	if s := os.Getenv("VERIF_REFLECT_N"); s != "" {
 		fmt.Sscanf(s, "%d", &perWorker)
@@ -711,5 +711,74 @@ func runC16() error {
 	}
 	rep.Rule = "alt.Recompose(alt.Decompose(v)) and oj.Unmarshal(oj.Marshal(v)) give v back (nil ~ empty); the outcome after a history of other types on the same recomposer " +
 		"equals the outcome on a fresh one; the Lean registry/recompose model gives the implementation's outcome with and without the history"
+	return nil
+}
+
+// ---- replay -----------------------------------------------------------------------------------
+
+func c16FromReplay(m map[string]any) (*c16Case, error) {
+	base, err := caseFromReplay(m)
+	if err != nil {
+		return nil, err
+	}
+	c := &c16Case{d: base.d, v: base.v, spec: base.spec}
+	c.route, _ = m["route"].(string)
+	if c.route == "" {
+		c.route = "decompose"
+	}
+	c.useDefault, _ = m["default_recomposer"].(bool)
+	hs, _ := m["history"].([]any)
+	for _, h := range hs {
+		e, _ := h.(string)
+		if len(e) < 2 {
+			return nil, fmt.Errorf("bad history event %q", e)
+		}
+		ty, val := e[2:], ""
+		if i := strings.IndexByte(ty, '|'); i >= 0 {
+			ty, val = ty[:i], ty[i+1:]
+		}
+		rt, rest, err := buildType(strings.Fields(ty))
+		if err != nil || len(rest) != 0 {
+			return nil, fmt.Errorf("bad history type: %v", err)
+		}
+		ev := histEvent{d: mustDescribe(rt)}
+		if e[0] == 'C' {
+			v := reflect.New(rt).Elem()
+			if rest, err := buildValue(v, strings.Fields(val)); err != nil || len(rest) != 0 {
+				return nil, fmt.Errorf("bad history value: %v", err)
+			}
+			ev.v = v
+		}
+		c.hist = append(c.hist, ev)
+	}
+	return c, nil
+}
+
+func replayC16() error {
+	data, err := os.ReadFile(*replay)
+	if err != nil {
+		return err
+	}
+	var rf replayFile
+	if err := json.Unmarshal(data, &rf); err != nil {
+		return err
+	}
+	c, err := c16FromReplay(rf.Replay)
+	if err != nil {
+		return err
+	}
+	var d *lib.Driver
+	if *driver != "" {
+		if d, err = lib.StartDriver(*driver); err != nil {
+			return err
+		}
+		defer d.Close()
+	}
+	if err := checkC16(d, c); err != nil {
+		return err
+	}
+	for _, f := range rep.Findings {
+		fmt.Printf("%s %s: %s\n", f.Kind, f.Class, f.What)
+	}
 	return nil
 }
